@@ -303,6 +303,10 @@ class C16(Campaign):
                 else:
                     ops[0]["listeners"] = [x for x in ops[0].get("listeners", []) if x != async_role] + [async_role]
                     ops[0]["rtc"] = True
+            if pi == 0 and rnd.random() < 0.3:
+                # instances of one class that start in different states (start_value)
+                st_ = rnd.choice(pr["states"])
+                ops[0]["start_value"] = st_["id"] if st_.get("value") is None else st_["value"]
             if p is None and rnd.random() < 0.3:
                 # an instance of the victim class built WITHOUT the user's model and listeners: if the class
                 # refers to names only they provide, the constructor must refuse it (InvalidDefinition) --
